@@ -886,6 +886,57 @@ def rule_v10(F):
     return r
 
 
+def rule_v11(F):
+    """The evaluator's variables belong to one activation: they are keyed by (scope, kind), so a function that is active twice
+    (recursion) shares its keys with the activation that called it.  A call therefore hands the caller's variables to the frame
+    it pushes, and the return puts them back before it stores the returned value - on the MIR of `eval`: the frame pushed for a call
+    receives a value derived from the variable map, and the map is re-assigned from the popped frame."""
+    r = RuleResult("C20.V11", "evaluator variables are per activation: saved in the frame a call pushes, restored by the return", floor=1)
+    b = F.body("lir::eval::eval")
+    if b is None or not b.mir:
+        r.missing("lir::eval::eval")
+        return r
+    defs = mir.Defs(b)
+    locs = b.mir["locals"]
+    maps = [i for i, l in enumerate(locs) if str(l.get("ty") or "").startswith("std::collections::HashMap<lir::Var, lir::value::IrValue") or
+            (str(l.get("ty") or "").startswith("std::collections::HashMap<") and "Var" in str(l.get("ty")) and "IrValue" in str(l.get("ty")))]
+    maps = [i for i in maps if locs[i].get("name")]
+    if not maps:
+        r.missing("the evaluator's variable map (HashMap<Var, IrValue>) in lir::eval::eval")
+        return r
+    vm = maps[0]
+    pushes = [(bi, t) for bi, t in mir.calls(b) if hir.last(mir.callee(t) or "") == "push_frame"]
+    pops = [(bi, t) for bi, t in mir.calls(b) if hir.last(mir.callee(t) or "") == "pop_frame"]
+    if not pushes or not pops:
+        r.missing("push_frame / pop_frame in lir::eval::eval")
+        return r
+    from .c08 import deps
+    saved = False
+    for bi, t in pushes:
+        for a in t["args"][1:]:
+            if mir.is_place_op(a) and "HashMap<" in str(locs[a[1][0]].get("ty") or ""):
+                chain = mir.back_calls(b, defs, a[1][0])
+                srcs = set()
+                for cb_ in chain:
+                    for a2 in b.blocks[cb_]["term"]["args"]:
+                        if mir.is_place_op(a2):
+                            srcs |= {a2[1][0]} | {x for d in defs.whole_defs(a2[1][0]) if d[2] == "assign" for x in mir.rv_locals(d[3]["rv"])}
+                if vm in srcs or a[1][0] == vm:
+                    saved = True
+    restored = False
+    for d in defs.defs.get(vm, []):
+        if d[2] == "assign" and len(d[3]["p"]) == 1:
+            for x in mir.rv_locals(d[3]["rv"]):
+                if any(pb in mir.back_calls(b, defs, x) for pb, _ in pops):
+                    restored = True
+    r.inst("call / return", {"variables_saved_in_the_pushed_frame": saved, "variables_restored_from_the_popped_frame": restored})
+    if not saved or not restored:
+        r.bad(b.path, "variables are not per activation", relfile(b.file), pushes[0][1].get("line") or b.line,
+              "a call does not save the caller's variables in the frame it pushes (saved: %s) or the return does not put them back (restored: %s): the variables are keyed by scope, so a "
+              "recursive call overwrites those of the activation that called it and the evaluator completes with a different value than the compiled code" % (saved, restored))
+    return r
+
+
 def rules(ctx):
     F = ctx["F"]
-    return [rule_v1(F), rule_v2(F), rule_v3(F), rule_v4(F), rule_v6(F), rule_v7(F), rule_v8(F), rule_v9(F), rule_v10(F)]
+    return [rule_v1(F), rule_v2(F), rule_v3(F), rule_v4(F), rule_v6(F), rule_v7(F), rule_v8(F), rule_v9(F), rule_v10(F), rule_v11(F)]
